@@ -172,10 +172,12 @@ ComplementP(n, L(_), H(_)) == \A m \in 0..(n - 1) : Complement(L(m), H(m))
 
 \* broadcasting of the gain against an array filtered along `axis` (0-based, may be negative):
 \* implementation = the shape the gain vector is given before the product with fft(ts, axis)
-NormAxis(nd, axis) == IF axis < 0 THEN nd + axis ELSE axis
+NoAxis == 99          \* the caller left `axis` out (None): "last axis by default"
+NormAxis(nd, axis) == IF axis = NoAxis THEN nd - 1 ELSE IF axis < 0 THEN nd + axis ELSE axis
 GainShapeImpl(nd, axis, n) ==
-    IF Variant = "orig" THEN (IF axis < nd - 1 THEN <<n, 1>> ELSE <<n>>)      \* filc[:, np.newaxis] unless last axis (F14)
-    ELSE [d \in 1..nd |-> IF d = NormAxis(nd, axis) + 1 THEN n ELSE 1]      \* shape[axis] = ns, 1 elsewhere
+    LET ax == IF axis = NoAxis THEN nd - 1 ELSE axis                           \* if axis is None: axis = ts.ndim - 1
+    IN IF Variant = "orig" THEN (IF ax < nd - 1 THEN <<n, 1>> ELSE <<n>>)      \* filc[:, np.newaxis] unless last axis (F14)
+       ELSE [d \in 1..nd |-> IF d = (IF ax < 0 THEN nd + ax ELSE ax) + 1 THEN n ELSE 1]   \* shape[axis] = ns, 1 elsewhere
 \* property: under NumPy's right-aligned broadcasting against an array of shape sh, the gain varies along the
 \* filtered axis and along no other axis
 GainAlignedP(sh, axis, g) ==
@@ -185,7 +187,7 @@ GainAlignedP(sh, axis, g) ==
     IN /\ pad >= 0
        /\ \A d \in 1..nd : At(d) = (IF d = NormAxis(nd, axis) + 1 THEN sh[d] ELSE 1)
 FilterAxes == (pc = "args" /\ nsx = 1 /\ nsw = 1 /\ mode = "full") =>
-    \A nd \in 1..3 : \A sh \in [1..nd -> 2..4] : \A axis \in (-nd)..(nd - 1) :
+    \A nd \in 1..3 : \A sh \in [1..nd -> 2..4] : \A axis \in ((-nd)..(nd - 1)) \cup {NoAxis} :
         GainAlignedP(sh, axis, GainShapeImpl(nd, axis, sh[NormAxis(nd, axis) + 1]))
 
 -----------------------------------------------------------------------------
